@@ -154,6 +154,105 @@ pub fn hx_plan(prop: &'static str, tier: &str) -> Vec<HxCfg> {
                 ]
             }
         }
+        "C08" | "C09" => {
+            // reload as a transition (the reloaded object is the next state and is explored
+            // further) + reload probe on every state; C09 cuts every distinct image
+            let r = |mut c: HxCfg| {
+                c.reload_swap = true;
+                c.probes.reload = prop == "C08";
+                c.probes.cuts = prop == "C09";
+                c.probes.drain = prop == "C08";
+                c
+            };
+            let enc = |name: &str, n: usize, cap: usize, ids: &[usize]| HxCfg::new(prop, name, n, cap, ids, &[0, 2, 3], &[0, 1, 2, 4, 5]);
+            if quick(tier) {
+                vec![
+                    r(all_ops(a3(prop, "3 ids, all ops"))),
+                    r(depth(enc("3 ids, 3 label kinds, 5 data encodings", 2, 3, &[0, 1, 2]), 5)),
+                    r(depth(a4(prop, "4 ids"), 6)),
+                    r(depth(HxCfg::new(prop, "ids 0,5,254,255 in 256 slots, Sodg<16>", 16, 256, &[0, 5, 254, 255], &[0], &[0, 1]), 3)),
+                    r(seeded5(prop, "5 ids from seeds", 2)),
+                ]
+            } else {
+                vec![
+                    wall(r(all_ops(a3(prop, "3 ids, all ops"))), 600),
+                    wall(r(depth(all_ops(a3x(prop, "3 ids, 2 labels, 2 data, all ops")), 9)), 1200),
+                    wall(r(depth(enc("3 ids, 3 label kinds, 5 data encodings", 2, 3, &[0, 1, 2]), 7)), 1200),
+                    wall(r(depth(enc("3 ids, 3 label kinds, 5 data encodings, Sodg<1>", 1, 3, &[0, 1, 2]), 7)), 900),
+                    wall(r(depth(all_ops(a4(prop, "4 ids, all ops")), 8)), 1200),
+                    wall(r(depth(HxCfg::new(prop, "ids 0,5,254,255 in 256 slots, Sodg<16>", 16, 256, &[0, 5, 254, 255], &[0], &[0, 1]), 5)), 1200),
+                    wall(r(seeded5(prop, "5 ids from seeds", 4)), 900),
+                ]
+            }
+        }
+        "C10" => {
+            let c = |mut c: HxCfg| {
+                c.clone_swap = true;
+                c.probes.clone = true;
+                c
+            };
+            if quick(tier) {
+                vec![c(all_ops(a3(prop, "3 ids, all ops"))), c(depth(a4(prop, "4 ids"), 6)), c(depth(HxCfg::new(prop, "3 ids, heap and inline data", 2, 3, &[0, 1, 2], &[0], &[0, 1, 4]), 6)), c(seeded5(prop, "5 ids from seeds", 2))]
+            } else {
+                vec![
+                    wall(c(all_ops(a3(prop, "3 ids, all ops"))), 600),
+                    wall(c(depth(all_ops(a3x(prop, "3 ids, 2 labels, 2 data, all ops")), 9)), 1500),
+                    wall(c(depth(all_ops(a4(prop, "4 ids, all ops")), 8)), 1500),
+                    wall(c(depth(a256(prop, "ids 0,5,254,255 in 256 slots, Sodg<16>"), 5)), 900),
+                ]
+            }
+        }
+        "C13" | "C18" | "C20" => {
+            let p = |mut c: HxCfg| {
+                c.probes.slice = prop == "C13";
+                c.probes.exports = prop == "C18";
+                c.probes.texts = prop == "C20";
+                c
+            };
+            if quick(tier) {
+                vec![
+                    p(all_ops(a3(prop, "3 ids, all ops"))),
+                    p(depth(HxCfg::new(prop, "3 ids, 3 label kinds, 3 data", 3, 3, &[0, 1, 2], &[0, 1, 2], &[0, 1, 2]), 5)),
+                    p(depth(a4(prop, "4 ids"), 6)),
+                    p(depth(HxCfg::new(prop, "ids 0,2,5 in 7 slots (never-added slots in between)", 2, 7, &[0, 2, 5], &[0, 3], &[3]), 5)),
+                ]
+            } else {
+                vec![
+                    wall(p(all_ops(a3(prop, "3 ids, all ops"))), 600),
+                    wall(p(depth(all_ops(a3x(prop, "3 ids, 2 labels, 2 data, all ops")), 8)), 1500),
+                    wall(p(depth(HxCfg::new(prop, "3 ids, 3 label kinds, 3 data", 3, 3, &[0, 1, 2], &[0, 1, 2], &[0, 1, 2]), 7)), 1200),
+                    wall(p(depth(a4(prop, "4 ids"), 9)), 1500),
+                    wall(p(depth(HxCfg::new(prop, "ids 0,2,5 in 7 slots (never-added slots in between)", 2, 7, &[0, 2, 5], &[0, 3], &[3]), 7)), 900),
+                ]
+            }
+        }
+        "C19" => {
+            let l = |mut c: HxCfg, cfgs: &[(usize, usize)], rerun: usize| {
+                c.probes.lockstep = cfgs.to_vec();
+                c.probes.rerun = rerun;
+                c
+            };
+            if quick(tier) {
+                vec![
+                    l(depth(all_ops(HxCfg::new(prop, "3 ids, 2 labels (A = Sodg<2>, 3 slots)", 2, 3, &[0, 1, 2], &[0, 1], &[0])), 5), &[(2, 4), (3, 4), (16, 3), (16, 256), (7, 64)], 2),
+                    l(depth(a4(prop, "4 ids (A = Sodg<2>, 4 slots)"), 5), &[(16, 256), (2, 5), (9, 8)], 1),
+                    l(all_ops(HxCfg::new(prop, "3 ids, 1 label (A = Sodg<1>, 3 slots)", 1, 3, &[0, 1, 2], &[0], &[0])), &[(16, 4)], 1),
+                ]
+            } else {
+                let mut all: Vec<(usize, usize)> = vec![];
+                for n in 1..=16 {
+                    for cap in [3, 4, 6, 64, 256] {
+                        all.push((n, cap));
+                    }
+                }
+                vec![
+                    wall(l(depth(all_ops(HxCfg::new(prop, "3 ids, 1 label (A = Sodg<1>, 3 slots)", 1, 3, &[0, 1, 2], &[0], &[0])), 7), &all, 2), 1500),
+                    wall(l(depth(all_ops(HxCfg::new(prop, "3 ids, 2 labels (A = Sodg<2>, 3 slots)", 2, 3, &[0, 1, 2], &[0, 1], &[0, 1])), 6), &all.iter().copied().filter(|(n, _)| *n >= 2).collect::<Vec<_>>(), 2), 1500),
+                    wall(l(depth(a4(prop, "4 ids (A = Sodg<2>, 4 slots)"), 7), &[(16, 256), (2, 5), (9, 8), (3, 64), (16, 4)], 1), 1200),
+                    wall(l(all_ops(a3(prop, "3 ids, all ops, to closure")), &[(16, 256), (1, 3)], 1), 1200),
+                ]
+            }
+        }
         _ => vec![],
     }
 }
@@ -167,6 +266,12 @@ fn required_counters(prop: &str) -> Vec<&'static str> {
         "C04" => vec!["readd_of_collected_id_that_had_edges", "readd_of_collected_id_that_had_data", "add_of_grouped_present_vertex", "add_next_calls"],
         "C05" => vec!["next_id_calls", "add_next_calls", "model_collections", "clone_swaps", "merges"],
         "C06" => vec!["model_collections"],
+        "C08" => vec!["reload_swaps", "reloads_compared", "reload_probe_with_unread_in_group", "reload_probe_with_taken_data", "reload_probe_with_heap_data", "reload_with_2plus_groups", "reload_with_nonzero_allocator"],
+        "C09" => vec!["cut_files_loaded", "distinct_images_cut"],
+        "C10" => vec!["clone_swaps", "clone_futures_compared", "clone_independence_checks"],
+        "C13" => vec!["slices_judged", "slices_of_cyclic_or_shared_shapes"],
+        "C19" => vec!["configurations_compared", "reruns_compared"],
+        "C20" => vec!["inspect_on_cyclic_or_shared_shapes"],
         _ => vec![],
     }
 }
@@ -186,12 +291,13 @@ pub fn run_hx_prop(prop: &'static str, tier: &str) -> Outcome {
             r.states, r.transitions, r.depth_completed, r.closed, r.cap_hit, r.violation_count, r.diverged_other, r.wall_s
         );
         total += r.violation_count;
+        machinery.extend(r.machinery.iter().cloned());
         for v in &r.violations {
             // every failing case is re-executed from scratch before it is reported
-            match crate::replay::replay_hx_violation(v, &cfg.labels, cfg.track_returned, &cfg.probes) {
+            match crate::replay::replay_hx_violation(cfg, v) {
                 Ok(true) => {
                     if !failures.iter().any(|f: &Failure| f.signature == format!("hx:{}", v.kind)) {
-                        failures.push(report::hx_failure(v, &cfg.labels, cfg.track_returned, &cfg.probes));
+                        failures.push(report::hx_failure(cfg, v));
                     }
                 }
                 Ok(false) => machinery.push(format!("a {} finding did not reproduce when replayed from scratch: {}", v.kind, crate::model::hist_text(&v.history))),
@@ -250,6 +356,13 @@ pub fn run(prop: &str, tier: &str) -> Option<Outcome> {
         "C04" => "C04",
         "C05" => "C05",
         "C06" => "C06",
+        "C08" => "C08",
+        "C09" => "C09",
+        "C10" => "C10",
+        "C13" => "C13",
+        "C18" => "C18",
+        "C19" => "C19",
+        "C20" => "C20",
         _ => return None,
     };
     Some(run_hx_prop(p, tier))
